@@ -177,7 +177,37 @@ where
   /// safe "get-or-insert" operations.
   pub fn entry(&self, key: K) -> Entry<'_, K, V, H> {
     let shard = self.shared.store.get_shard(&key);
-    let guard = shard.map.write();
+    let mut guard = shard.map.write();
+
+    // An entry past its expiry instant is not served by any read API: purge it
+    // here (same bookkeeping as the janitor's expiry cleanup) so it is reported
+    // as vacant instead of handing out the expired value through `Occupied`.
+    if guard
+      .get(&key)
+      .map_or(false, |entry| entry.is_expired(self.shared.time_to_idle))
+    {
+      if let Some(old) = guard.remove(&key) {
+        self.shared.get_cache_policy(&key).on_remove(&key);
+        self
+          .shared
+          .metrics
+          .evicted_by_ttl
+          .fetch_add(1, Ordering::Relaxed);
+        self
+          .shared
+          .metrics
+          .current_cost
+          .fetch_sub(old.cost(), Ordering::Relaxed);
+        if let Some(wheel) = &shard.timer_wheel {
+          if let Some(handle) = &old.ttl_timer_handle {
+            wheel.cancel(handle);
+          }
+        }
+        if let Some(sender) = &self.shared.notification_sender {
+          let _ = sender.try_send((key.clone(), old.value(), EvictionReason::Expired));
+        }
+      }
+    }
 
     if guard.contains_key(&key) {
       Entry::Occupied(OccupiedEntry {
